@@ -309,8 +309,17 @@ pub fn is_pure_regex_rule(line: &str) -> bool {
 pub fn gen_workload(spec: &RunSpec) -> Workload {
     let mut r = XRng::new(spec.seed);
     r.vocab = if spec.mode == Mode::Pure { r.range(3, 6) } else { r.range(6, 12) };
-    let (rules, n_regex_rules) = gen_rules(&mut r, spec.mode);
-    let optimize = spec.mode == Mode::Rich && r.chance(1, 2);
+    let (mut rules, n_regex_rules) = gen_rules(&mut r, spec.mode);
+    let mut optimize = spec.mode == Mode::Rich && r.chance(1, 2);
+    // one rich run in six holds a fusion group of several hundred wildcard rules (one shared token,
+    // same options): optimised, they become ONE regex set of that many members
+    let big_group = if spec.mode == Mode::Rich && r.chance(1, 6) { r.range(450, 700) } else { 0 };
+    for i in 0..big_group {
+        rules.push(format!("/bigfuse/*item{}x.gif", i));
+    }
+    if big_group > 0 {
+        optimize = true;
+    }
     let tags: Vec<&'static str> = if spec.mode == Mode::Rich {
         match r.below(3) {
             0 => vec![],
@@ -329,6 +338,11 @@ pub fn gen_workload(spec: &RunSpec) -> Workload {
             (url, source, r.pick(TYPES))
         })
         .collect();
+    let mut pool = pool;
+    for k in 0..(if big_group > 0 { 6 } else { 0 }) {
+        let i = r.below(big_group + 20);
+        pool.push((format!("https://{}/bigfuse/q{}/item{}x.gif", r.pick(HOSTS), k, i), format!("https://{}/page", r.pick(HOSTS)), "image"));
+    }
     let mut queries = vec![];
     for _ in 0..spec.threads {
         let mut qs = Vec::with_capacity(spec.queries);
